@@ -1,6 +1,6 @@
 (* Props/C12.v — property C12: decode errors are present, bounded and point into the input.
    Statements only; proofs in Proofs/C12.v, Proofs/C03.v. *)
-From Beff Require Import Model.Known Model.RuntimeSpec Proofs.C03 Proofs.C12.
+From Beff Require Import Model.Known Model.RuntimeSpec Model.PointsSpec Proofs.C03 Proofs.C12 Proofs.C12Points.
 
 Definition no_formats : formats := {| sfmt := fun _ => None; nfmt := fun _ => None |}.
 
@@ -53,13 +53,39 @@ Proof.
   vm_compute in H. specialize (H eq_refl). discriminate H.
 Qed.
 
+(* ---- every reported path addresses a position of the input (or a missing property / position of a container that
+        exists), `received` is the value found there, and the members of a union error point into its received value
+        (Model/PointsSpec.v: Step / Resolves / Points).  Full statement, refutation, what holds. ---- *)
+Definition C12_errors_point_into_the_input : Prop :=
+  forall F env f strict order r v es,
+    safe_parse F env f strict order r v = Ok (PFailure es) -> Forall (Points v) es.
+
+(* { [k: "a"]: any } given {b: 1}: the error for the rejected key is reported at path ["b"] with received "b" (the key),
+   while the value at that path is 1 (listed finding index_key_received) *)
+Theorem C12_refuted_index_key_received : ~ C12_errors_point_into_the_input.
+Proof.
+  intros H.
+  specialize (H no_formats [] 10 false OrderInput (RObject [] [(RConst (CStr "a"), RAny)]) (VObj [("b", VNum (NInt 1))])
+                [ERegular "expected ""a""" ["b"] (VStr "b")] eq_refl).
+  inversion H as [|e es He _]; subst. inversion He as [v m p r Hr|]; subst.
+  inversion Hr as [|v seg w p u Hs Hr']; subst. inversion Hr'; subst.
+  inversion Hs; subst; discriminate.
+Qed.
+
+(* every tree whose index signatures have the key type `string`, every environment of such trees, every value *)
+Theorem C12_errors_point_into_the_input_except_known :
+  forall F env f strict order r v es,
+    c12_points_env env = true -> c12_points r = true ->
+    safe_parse F env f strict order r v = Ok (PFailure es) -> Forall (Points v) es.
+Proof. exact safe_parse_points. Qed.
+
 (* non-vacuity: nested failures inside a union inside an object; the errors point into the input *)
 Definition c12_ex_rt : rt :=
   RObject [("a", RAnyOf [RTypeof TyString; RArray (RObject [("x", RTypeof TyNumber)] [])])] [].
 Definition c12_ex_val : val := VObj [("a", VArr [VObj [("x", VNum (NInt 1))]; VObj [("x", VStr "s")]])].
 Definition c12_ex_errs : list err := [ERegular "expected number" ["a"; "[1]"; "x"] (VStr "s")].
 Example C12_nonvacuous :
-  c12_plain c12_ex_rt = true /\ validate no_formats [] 20 false c12_ex_rt c12_ex_val = Ok false /\
+  c12_plain c12_ex_rt = true /\ c12_points c12_ex_rt = true /\ validate no_formats [] 20 false c12_ex_rt c12_ex_val = Ok false /\
   safe_parse no_formats [] 20 false OrderInput c12_ex_rt c12_ex_val = Ok (PFailure c12_ex_errs) /\
   errors_ok 20 c12_ex_val c12_ex_errs = true.
 Proof. repeat split; vm_compute; reflexivity. Qed.
@@ -67,5 +93,7 @@ Proof. repeat split; vm_compute; reflexivity. Qed.
 Print Assumptions C12_at_most_ten.
 Print Assumptions C12_at_least_one_except_known.
 Print Assumptions C12_safeParse_reports_between_1_and_10_except_known.
+Print Assumptions C12_errors_point_into_the_input_except_known.
+Print Assumptions C12_refuted_index_key_received.
 Print Assumptions C12_refuted_no_error.
 Print Assumptions C12_refuted_report_throws.
